@@ -142,13 +142,17 @@ Qed.
 Lemma read_sees_next_line (v : str) (x : xstate (I:=dev)) :
   let y := fst (exec byte_ops (CRead true NL v) x) in
   let ls := split_lines (concat (x_in x)) in
-  get_var v (s_vars (x_sh y)) = read_value (fst (scan_line true (hd [] ls))) /\
+  (existsb (fun c => N.eqb (fst c) 0) (fst (scan_line true (hd [] ls))) = false ->
+   get_var v (s_vars (x_sh y)) = read_value (fst (scan_line true (hd [] ls)))) /\
   concat (x_in y) = concat (tl ls) /\ x_off y = x_off x + nlen (hd [] ls) /\
   x_evs y = x_evs x.
 Proof.
   cbn [exec op_read byte_ops]. pose proof (read_text_lines true NL (x_in x)) as H.
-  rewrite line_read_raw in H. destruct H as [d' [-> Hd]]. cbn.
-  rewrite get_set_var. repeat split. rewrite <- Hd. now rewrite concat_split_lines.
+  rewrite line_read_raw in H. destruct H as [d' [-> Hd]].
+  destruct (existsb (fun c => N.eqb (fst c) 0)
+              (fst (scan_line true (hd [] (split_lines (concat (x_in x))))))) eqn:E; cbn.
+  - repeat split; try discriminate. rewrite <- Hd. now rewrite concat_split_lines.
+  - rewrite get_set_var. repeat split. rewrite <- Hd. now rewrite concat_split_lines.
 Qed.
 
 Lemma fd_position_after_command_lemma parser pf sts pend fed0 (d : dev) off c p fed' src' d' off' eof' :
@@ -163,7 +167,8 @@ Lemma fd_position_after_command_lemma parser pf sts pend fed0 (d : dev) off c p 
         = evs ++ [Ev 2 [concat following] (s_status sh) off']) /\
     (forall sh evs v,
         let y := fst (exec byte_ops (CRead true NL v) (mkX sh d' off' evs)) in
-        get_var v (s_vars (x_sh y)) = read_value (fst (scan_line true (hd [] following))) /\
+        (existsb (fun c => N.eqb (fst c) 0) (fst (scan_line true (hd [] following))) = false ->
+         get_var v (s_vars (x_sh y)) = read_value (fst (scan_line true (hd [] following)))) /\
         concat (x_in y) = concat (tl following) /\
         x_off y = off' + nlen (hd [] following)).
 Proof.
@@ -455,3 +460,23 @@ Proof.
   - pose proof (split_lines_length (concat d0)). lia.
   - lia.
 Qed.
+
+(* ------------------------------------------------------------------ *)
+(* The `set -v` clause is silent on scripts that do not use it.        *)
+
+Definition quiet_event (e : event) : bool :=
+  match e with Ev k args _ _ => negb (N.eqb k 4) && negb (list_eqb str_eqb args vmark) end.
+
+Lemma echo_walk_quiet script evs :
+  forallb quiet_event evs = true -> echo_walk script None [] evs = (true, None, []).
+Proof.
+  induction evs as [|[k args st off] evs IH]; intros H; cbn [echo_walk]; [reflexivity|].
+  cbn [forallb quiet_event] in H. apply andb_true_iff in H. destruct H as [H1 H2].
+  apply andb_true_iff in H1. destruct H1 as [Hk Hv].
+  apply negb_true_iff in Hk, Hv. rewrite Hk, Hv.
+  destruct (N.eqb k 3); [now apply IH|]. now rewrite (IH H2).
+Qed.
+
+Lemma echo_clause_quiet_lemma script t s off evs :
+  forallb quiet_event evs = true -> echo_ok script (t, s, off, evs) = true.
+Proof. intros H. unfold echo_ok. now rewrite (echo_walk_quiet script evs H). Qed.
